@@ -307,9 +307,26 @@ impl Check for C02 {
             emit(Case::new("tok", buf.clone()));
             i += g.nshards;
         }
+        // (1b) number-shaped tokens: every digit count 1..140 x every tail, bare and inside
+        // containers (the `.`/`e` visits every lane of the block-wise number skipper)
+        let mut idx = 0u64;
+        for n in 1..=140usize {
+            for tail in 0..crate::gen::numlit::SHAPE_TAILS.len() {
+                idx += 1;
+                if !g.mine(idx) {
+                    continue;
+                }
+                for (neg, frac) in [(false, 0usize), (true, 0), (false, (n * 7) % 40)] {
+                    let t = crate::gen::numlit::number_shape(n, tail, neg, frac);
+                    emit(Case::new("numshape", t.clone().into_bytes()));
+                    emit(Case::new("numshape", format!("[{}]", t).into_bytes()));
+                    emit(Case::new("numshape", format!("{{\"k\":[0, {} ],\"z\":{}}}", t, t).into_bytes()));
+                }
+            }
+        }
         // (2) generated documents and mutations
         let mut r = g.rng(2);
-        let n = g.count(60_000, 2_000_000);
+        let n = g.count(120_000, 10_000_000);
         for k in 0..n {
             let d = doc::gen_any(&mut r);
             if k % 4 == 0 {
@@ -326,6 +343,7 @@ impl Check for C02 {
         match c.entry.as_str() {
             "tok" => ctx.sample("token-sequence"),
             "doc" => ctx.sample("generated-document"),
+            "numshape" => ctx.sample("number-shape"),
             _ => ctx.sample("mutated-document"),
         }
     }
